@@ -183,6 +183,7 @@ class Prop:
                 if e is not None:
                     raise Violation("C14.restart", "pickle round trip raised %r" % (e,), i)
                 self.compare_pool(pool, new, models, "pickle", i, ext_friend=False)
+                self.check_post_only("pickle", op["proto"], i)
                 pool = new
                 for m in models:
                     m["scratch"] = 7
@@ -194,6 +195,8 @@ class Prop:
                 if e is not None:
                     raise Violation("C14.fork", "deepcopy of the pool raised %r" % (e,), i)
                 self.compare_pool(pool, new, models, "deepcopy", i, ext_friend=True)
+                self.check_post_only("deepcopy", None, i)
+                self.check_post_only("clone", None, i)
                 # a deep copy stores what the prototyped attribute read as at that moment
                 # as a local value of the copy (pickling does not)
                 reads = [self.pv_reads(m) for m in models]
@@ -302,6 +305,29 @@ class Prop:
                     raise Violation("C14.shared-state",
                                     "an object that was copied from changed when its copy was "
                                     "mutated (R%d)" % x.uid, step)
+
+    def check_post_only(self, how, proto, step):
+        """An object of a class whose only handler is declared with
+        ``@observe(..., post_init=True)``: the copy hears its own changes."""
+        from ..zoo14 import PostOnly
+        o = PostOnly(v=1)
+        o.v = 2
+        if how == "pickle":
+            c, e = sut(lambda: pickle.loads(pickle.dumps(o, proto)))
+        elif how == "deepcopy":
+            c, e = sut(copy.deepcopy, o)
+        else:
+            c, e = sut(o.clone_traits)
+        if e is not None:
+            raise Violation("C14.copy", "%s of a PostOnly object raised %r" % (how, e), step)
+        del c.log[:]
+        _, e = sut(setattr, c, "v", 9)
+        self.env.oracle_evals += 1
+        if e is not None or "post_init_observer" not in c.log or c.v != 9:
+            raise Violation("C14.copy-not-live",
+                            "%s: a change on the copy did not reach the observer declared with "
+                            "post_init=True (class without other handlers): log=%r, raised %r"
+                            % (how, list(c.log), e), step)
 
     def compare_pool(self, old, new, models, how, step, ext_friend):
         if len(new) != len(old):
@@ -484,7 +510,10 @@ class Prop:
                     raise Violation("C14.copy-not-live",
                                     "copy of R%d: %s did not reach %s (log=%r)"
                                     % (m["uid"], what, "the name_items handler"
-                                       if n == "legacy_items" else "the declared observer (" + n + ")",
+                                       if n == "legacy_items" else
+                                       "the observer declared with post_init=True"
+                                       if n == "post_init_observer" else
+                                       "the declared observer (" + n + ")",
                                        list(x.log)), step)
         reject(lambda: setattr(x, "value", "x"), "value = 'x'")
         reject(lambda: x.tags.append("x"), "tags.append('x')")
@@ -528,7 +557,8 @@ class Prop:
         else:
             expect_log(lambda: x.group.discard(77), "group.discard", "legacy_items", "SetChangeEvent")
             m["group"].discard(77)
-        expect_log(lambda: setattr(x, "value", m["value"] + 1), "value change", "TraitChangeEvent")
+        expect_log(lambda: setattr(x, "value", m["value"] + 1), "value change", "TraitChangeEvent",
+                   "post_init_observer")
         m["value"] += 1
         # observed property on the copy
         ch = x.__dict__.get("children") or []
